@@ -375,6 +375,16 @@ UNITS = [
       props={'memsafe': ['C13'], 'ub': ['C13']},
       assumes=['plain symbolic execution of the real c3d::point(name); constructors, Points::point(p), Frame::add, push_back, the column '
                'adder and updateParameters are recording stubs (their own units)']),
+    U('B_c3d_analog_name', 'contracts/bounded_point_name.c', 'h_B_c3d_analog_name', [], ['C06', 'C05', 'C13'], mode='bmc',
+      stubs={'Channel__ctor__str': 'stuba_Channel_ctor', 'Channel__name__str': 'stuba_Channel_name', 'Channel__data__float': 'stuba_Channel_data',
+             'SubFrame__ctor__void': 'stuba_SubFrame_ctor', 'SubFrame__channel__Channel_sz': 'stuba_SubFrame_append',
+             'Frame__ctor': 'stubn_Frame_ctor', 'Frame__analogs_nonConst': 'stuba_Frame_analogs',
+             'Analogs__subframe__SubFrame_sz': 'stuba_Analogs_append', 'vf_vec_Frame_push_back': 'stuba_push_back',
+             'c3d__analog__vFrame': 'stubn_column', 'c3d__updateParameters': 'stuba_update'},
+      unwind=5, timeout=600, level='B', object_bits=12, bound='at most 3 stored frames, 3 sub-frames, name of at most 2 characters',
+      props={'memsafe': ['C13'], 'ub': ['C13']},
+      assumes=['plain symbolic execution of the real c3d::analog(name); constructors, setters, SubFrame::channel(c), Analogs::subframe(s), '
+               'push_back, the column adder and updateParameters are recording stubs (their own units)']),
     U('Parameters_write', WR, 'h_Parameters_write', ['Parameters__write/contract_Parameters__write'],
       ['C01', 'C03', 'C13', 'C14', 'C10'], replace=['Group__write/contract_abs_Group__write'], unwind=5, loops=True, timeout=900,
       pre_unwind={'vf_stream_write.0': 5, 'Parameters__write.0': 3},
